@@ -7,7 +7,7 @@ from vyxal import lexer, parse as vparse
 RULE = ("closed programs from the structure grammar (depth <= 4) that end in a run of closers (every opener kind, literals that "
         "end the program, modifiers as last token, function definitions), then EVERY number of trailing closers (and the string "
         "delimiter) removed; oracle: repr(parse(tokenise(closed))) == repr(parse(tokenise(truncated))). Thorough adds every "
-        "program of <= 6 symbols over a 16-symbol alphabet closed by its pending closers. Each program is also lexed/parsed by the "
+        "program of <= 5 symbols over a 16-symbol alphabet (plus a seeded sample of 300 000 programs of 6..8 symbols) closed by its pending closers. Each program is also lexed/parsed by the "
         "Lean model. Non-trivial = distinct (closed program, number of dropped characters).")
 CLOSERS = "])};⟩"
 OPEN = {"[": "]", "(": ")", "{": "}", "λ": ";", "ƛ": ";", "'": ";", "µ": ";", "⟨": "⟩", "@": ";"}
@@ -76,9 +76,17 @@ def run(ctx, widen=False):
     if thorough:
         A = list("[({λƛ⟨|1+vX;)]⟩}")
         cnt = 0
-        for L in range(1, 6 if widen and ctx.tier != "thorough" else 7):
-            for t in itertools.product(A, repeat=L):
-                p = "".join(t)
+        def short_programs():
+            # every program of <= 5 symbols (1.1 million), and a seeded sample of 300 000 programs of 6..8 symbols
+            # (all 16^6 of the next length would take hours in one process)
+            for L in range(1, 6):
+                for t in itertools.product(A, repeat=L):
+                    yield "".join(t)
+            if ctx.tier == "thorough":
+                for _ in range(300000):
+                    yield "".join(ctx.rng.choice(A) for _ in range(ctx.rng.randint(6, 8)))
+        for p in short_programs():
+            if True:
                 cl = pending(p)
                 if not cl:
                     continue
